@@ -24,11 +24,11 @@ class Clock(i_lib.Clock):
 
     def start(self):
         self.reset()
+        self._keep_going = True
         threading.Thread(target=self.run, args=(), daemon=True).start()
 
     @injection.inject(i_lib.Settings)
     def run(self, settings):
-        self._keep_going = True
         sleep_time = float(settings.get_value('sleep_time'))
         while self._keep_going:
             if sleep_time > 0.0:
